@@ -95,6 +95,128 @@ class AdtIndex:
         return None
 
 
+
+def _hand_cut_partitions(ctx, mpq, pid):
+    import itertools
+    from .c10 import _ival, _NoEval
+    R = ctx.rule("%s.hand-cut-batches-tile-the-request" % pid, "in the parallel modules: the request is split by chunks()/par_chunks() (complete by construction), or every index-driven `&list[a..b]` tiles 0..len exactly for all lengths 0..=24 (and around every numeric threshold of the function) and all small values of the sizes involved", floor=2)
+    for f in mpq.fn_list:
+        if not f.file.endswith(("single_archive_parallel.rs", "src/parallel.rs")) or "::tests::" in f.path or not f.hir or f.kind == "Closure":
+            continue
+        body = f.hir["body"]
+        params = {b for p_ in f.hir["params"] for b in hirq.pat_binds(p_)}
+        for c_ in hirq.walk(body):
+            if c_.get("k") == "mcall" and c_["m"] in ("chunks", "par_chunks"):
+                ctx.saw_fn(f)
+                ctx.ok(R, {"fn": norm(f.path).split("::")[-1], "split": c_["m"], "line": c_.get("ln")})
+        lets = {l["pat"]["name"]: l["init"] for l in hirq.find(body, "let") if l["pat"].get("k") == "bind" and l.get("init") is not None}
+        # parent links (closures / loops that bind the counter)
+        parent = {}
+        for x in hirq.walk(body):
+            for y in hirq.children(x):
+                parent[id(y)] = x
+        for ix in hirq.find(body, "index"):
+            rng = hirq.strip(ix["i"])
+            if rng.get("k") != "struct" or not re.search(r"ops::range::Range(Inclusive)?$", (rng.get("res") or {}).get("def") or ""):
+                continue
+            base = hirq.strip(ix["e"])
+            if base.get("k") != "path" or (base.get("res") or {}).get("local") not in params:
+                continue
+            bname = base["res"]["local"]
+            if not re.search(r"name|file", bname):
+                continue
+            fd = dict((nm, e) for nm, e in rng["fields"])
+            if "start" not in fd or "end" not in fd:
+                continue
+            inclusive = rng["res"]["def"].endswith("Inclusive")
+            # the counter: the nearest enclosing closure parameter / for pattern whose source is an integer range
+            drv = None
+            x = ix
+            while id(x) in parent and drv is None:
+                x = parent[id(x)]
+                src = None
+                names = []
+                if x.get("k") == "closure":
+                    names = [b for p_ in x.get("params", []) or [] for b in hirq.pat_binds(p_)]
+                    call = parent.get(id(x))
+                    while call is not None and call.get("k") not in ("mcall", "call"):
+                        call = parent.get(id(call))
+                    src = call.get("recv") if call is not None and call.get("k") == "mcall" else None
+                elif x.get("k") == "for":
+                    names = hirq.pat_binds(x["pat"])
+                    src = x["iter"]
+                if len(names) != 1 or src is None:
+                    continue
+                r0 = hirq.strip(src)
+                while r0.get("k") == "mcall" and r0["m"] in ("into_par_iter", "into_iter", "par_iter", "iter", "map", "enumerate") and r0["m"] != "enumerate":
+                    r0 = hirq.strip(r0["recv"])
+                if r0.get("k") == "struct" and re.search(r"ops::range::Range$", (r0.get("res") or {}).get("def") or ""):
+                    rf = dict((nm, e) for nm, e in r0["fields"])
+                    drv = (names[0], rf.get("start"), rf.get("end"))
+            inst = {"fn": norm(f.path).split("::")[-1], "list": bname, "line": ix.get("ln")}
+            key = "%s|%s|range-slice" % (inst["fn"], bname)
+            ctx.saw_fn(f)
+            if drv is None:
+                ctx.note_unarmed(R, inst, "no integer-range counter found for the slice bounds")
+                continue
+            cname, lo_e, hi_e = drv
+            syms = {}
+
+            def leaf(r, _syms=syms):
+                if r == "%s.len()" % bname:
+                    return _syms.get("__len__", 0)
+                if r not in _syms:
+                    _syms[r] = 1
+                return _syms[r]
+            def ev(e, i, L, lets_=lets):
+                env = {"__leaf__": leaf, "__ty__": mpq.ty, cname: i}
+                syms["__len__"] = L
+                return _ival(e, env, {k_: v_ for k_, v_ in lets_.items() if k_ != cname})
+            try:
+                ev(hi_e, 0, 5); ev(fd["start"], 0, 5); ev(fd["end"], 0, 5)      # discovers the free quantities
+            except _NoEval as e:
+                ctx.note_unarmed(R, inst, "bounds not evaluable (%s)" % e)
+                continue
+            free = sorted(k_ for k_ in syms if k_ != "__len__")
+            if len(free) > 3:
+                ctx.note_unarmed(R, inst, "more than three free quantities in the bounds")
+                continue
+            witness = None
+            cases = 0
+            # list lengths: 0..=24, plus the neighbourhood of every integer literal the function compares or computes with
+            # (a size that switches strategy above some threshold must tile the list on both sides of it)
+            lits = sorted({int(x["v"]["int"]) for x in hirq.walk(body) if x.get("k") == "lit" and "int" in x.get("v", {}) and 24 < int(x["v"]["int"]) <= 20000})
+            big = sorted({v_ for c0 in lits for v_ in (c0 - 1, c0, c0 + 1, 2 * c0 + 1)})
+            for vals in itertools.product((1, 2, 3, 4, 7), repeat=len(free)):
+                for k_, v_ in zip(free, vals):
+                    syms[k_] = v_
+                for L in list(range(0, 25)) + (big if all(v_ in (3, 7) for v_ in vals) else []):
+                    try:
+                        lo, hi = ev(lo_e, 0, L), ev(hi_e, 0, L)
+                        pos = 0
+                        okc = True
+                        for i in range(lo, hi):
+                            a, b = ev(fd["start"], i, L), ev(fd["end"], i, L) + (1 if inclusive else 0)
+                            if a != pos or b < a or b > L:
+                                okc = False
+                                break
+                            pos = b
+                        okc = okc and pos == L
+                    except _NoEval:
+                        continue
+                    cases += 1
+                    if not okc and witness is None:
+                        witness = (dict(zip(free, vals)), L)
+            if witness:
+                ctx.bad(R, key, "%s:%d" % (f.file, ix.get("ln") or 0),
+                        "`&%s[%s..%s]` for %s in %s..%s does not tile the list: with %s and %d names the pieces leave a gap, overlap or stop short" % (
+                            bname, hirq.render(fd["start"])[:30], hirq.render(fd["end"])[:30], cname, hirq.render(lo_e)[:20], hirq.render(hi_e)[:30],
+                            ", ".join("%s = %d" % kv for kv in witness[0].items()) or "no free quantity", witness[1]),
+                        "some requested names are handed to no worker (or to two): the parallel call returns fewer (or duplicated) slots than the sequential loop, with no error")
+            else:
+                ctx.ok(R, dict(inst, cases=cases, free=free))
+
+
 def every_name_gets_a_slot(ctx, mpq, pid):
     """shared by C09 (parallel == sequential) and C20 (exit 0 ⇒ complete output): the request list is partitioned completely"""
     # every requested name gets a slot: the request list is partitioned completely and nothing is dropped on the way to the result
@@ -167,6 +289,10 @@ def every_name_gets_a_slot(ctx, mpq, pid):
                         "a requested name gets no slot: the result is shorter than the request and every later slot is shifted against the request order")
             else:
                 ctx.ok(R_part, inst)
+    # ... and a partition of the request that is cut by hand (index arithmetic instead of `chunks`) covers the request exactly:
+    # every `&list[a..b]` whose bounds depend on a counter running over `lo..hi` is evaluated for list lengths 0..=24 and every
+    # valuation of the other quantities it mentions (independent small values): the pieces must tile 0..len in order
+    _hand_cut_partitions(ctx, mpq, pid)
     # ... in the order requested: nothing re-orders the names (or a per-batch copy of them) on the way, and an empty request is
     # no special case (the sequential loop still opens every archive and returns one entry per archive)
     R_ord = ctx.rule("%s.request-order-kept" % pid, "in the parallel modules: no sort / reverse / dedup / swap / rotate / shuffle of a name list, and no early `return Ok(<empty>)` guarded by an is_empty() test of the request", floor=10)
@@ -370,3 +496,9 @@ def run(ctx):
                         "a failing name would be reported per-slot although the call must fail as a whole")
             else:
                 ctx.ok(R_skip, {"fn": f.path, "line": n["ln"]})
+
+
+def run_extra(ctx):
+    """rules armed after run(): shared rules that need nothing from run()'s locals"""
+    from ..shared import setters_keep_other_settings_rule
+    setters_keep_other_settings_rule(ctx, [ctx.prog.crate(c) for c in ["wow_mpq"]], "C09", "single_archive_parallel::ParallelConfig$|parallel::\\w*Config$", floor=3)
